@@ -133,6 +133,10 @@ func (env *Env) lookupIdent(name string) (Val, bool) {
 			return v, true
 		}
 	}
+	// ghosts maintained by the atomic-operation models: arbitrary on paths without such an operation
+	if name == "cas_seen" || name == "load_seen" {
+		return term(e.S.Fresh("no_"+name, e.sortOf(tUint64)), tUint64), true
+	}
 	// package-level names
 	if obj := e.P.lookupObj(name, env.pkg); obj != nil {
 		return env.objVal(obj)
